@@ -222,7 +222,7 @@ class OpCase:
         return specs, ts, arrays, names
 
     def run(self, env):
-        with EpsZero(self.opdef.epsilon_zero() and not self.args.get("values") and self.prop in ("C01", "C02", "C14", "C05", "C06")):
+        with EpsZero(self.opdef.epsilon_zero() and not self.args.get("values") and not self.variant.get("precise") and self.prop in ("C01", "C02", "C14", "C05", "C06")):
             return getattr(self, "run_" + self.prop)(env)
 
     # ------------------------------------------------------------------ VJP (C01 / C02)
